@@ -28,6 +28,7 @@ EXPLANATION = (
     'such (value-level).'
 )
 ASSUMPTIONS = [
+
     "redb tuple key order equals component-wise byte order",
     "callee resolution by rustc; Self::method calls in ranger::Store default methods bound by name to StoreInstance",
     "tracing macro expansions are effect-free",
@@ -36,6 +37,9 @@ ASSUMPTIONS = [
 PUT = "ranger::Store::put"
 SI = "<store::fs::StoreInstance<'a> as ranger::Store<sync::SignedEntry>>::"
 VIEW_VALUE = re.compile(mir.VIEW.pattern[:-2] + r"|value|next|into_iter)$")
+
+
+EXPLANATION += ' (R9) what Replica::insert / delete_prefix offer to the store does not depend on what the store holds at that moment (= C03.R9 with cells on the stored state).'
 
 
 def _label_put_operand(body, op):
